@@ -1,5 +1,6 @@
 """C13 -- NNLS solvers (hals_nnls, fista, active_set_nnls) return KKT-optimal non-negative solutions;
-admm(n_const=None) returns the unconstrained least-squares solution.
+admm(n_const=None) returns the unconstrained least-squares solution; the loop of admm with a number of constraints but none selected
+contracts to it (C13_admm.py: the whole function admm against Model/NnlsAdmm.v).
 
 Correspondence: Model/Nnls.v executed at Qops inside Coq against tensorly/solvers/nnls.py / admm.py on the same
 inputs (HALS passes incl. l1 / ridge / epsilon / nonzero_rows / cold start, the cold start alone vs hals_init, FISTA
@@ -947,8 +948,9 @@ def run(chk):
                        "'run to convergence' is a limit statement: proved are monotone descent + fixed point <=> KKT => optimal; that the returned point is an approximate fixed point is measured (CConv)"]
     chk.trusted = ["scipy.optimize.nnls as independent reference (objective value only)",
                    "static tie (C13_tie.py): the translator from the Python ast to Gallina terms is trusted to render the arithmetic faithfully (it knows only +, -, *, /, clip, where, dot, "
-                   "transpose, sum, abs, copy, solve and fails closed on anything else); what it does not translate (callback / exact, the list branch, the momentum recurrence, try / except and block solves of active_set_nnls) is tied by the differential correspondence only",
-                   "the sqrt-defined FISTA momentum sequence and the leading singular value (numpy 2-norm) enter the model as recorded data",
+                   "transpose, sum, abs, copy, solve and fails closed on anything else); what it does not translate (callback / exact, the list branch, try / except and block solves of active_set_nnls, validate_constraints) is tied by the differential correspondence only",
+                   "the leading singular value (numpy 2-norm) enters the model as recorded data; the FISTA momentum coefficients are computed in the model (2^-60 square root) and compared with the recorded float sequence to 1e-14, the iterations are evaluated with the recorded values",
+                   "admm (whole function): norms compared in squared form (C13_admm_norm_test_is_norm_test), validate_constraints modelled for one scalar constraint or none and orders >= 0",
                    "stopping decisions: when every decision e < t of the model's run is clear-cut (|e - t| > 1e-6 (|e| + |t|)) the implementation must return the model's result; only borderline decisions (incl. e = t = 0) fall back to accepting any prefix iterate"]
     return chk.finish(CLASSIFIERS)
 
